@@ -1,10 +1,14 @@
 """C17 — vcheck configuration (PROP) and MANIFEST claim (CHECK)."""
 PROP = {
  'module': 'UmProps.C17',
- 'gen_modules': ['ProtoConsts'],
+ 'gen_modules': ['ProtoConsts', 'ChunkTables', 'Consts'],
  'streams': [{'name': 'proto', 'harness': 'umh_proto', 'driver': 'proto',
               'timeout': {'quick': 600, 'thorough': 3000}}],
  'assumptions': [
+  'C17_task_commit is stated for clusters satisfying PosInv ∧ TwinInv ∧ SlotInv (C01 proves them for every bounded run: '
+  'C17_task_commit_run via cinv_run), a migration epoch within u64, a valid cluster name and space-free node/proxy '
+  'addresses; the broker model is UmModel/Broker.lean + BrokerView.lean (tied to the code by the broker stream and by the '
+  'commit leg of this stream)',
   'usize is 64 bit and the crate is built without overflow checks (release profile): `end + 1` in RangeList::compact wraps',
   'Rust str::parse::<u64>/<usize>, str::from_utf8, to_uppercase/to_lowercase as transliterated in UmModel/Proto.lean '
   '(parseUnsigned, validUtf8, upperA/lowerA); the two case tables are compared with Rust\'s Unicode tables over all '
@@ -20,14 +24,11 @@ PROP = {
   '(reply "WARNING: ignored invalid config") and counted separately',
  ],
  'gaps': [
-  'C17_task_commit (the broker accepts the descriptor a proxy reports as naming exactly the pending migration) is not '
-  'stated here: it needs the broker model (C10 commit_migration); this check covers the descriptor up to the value the '
-  'coordinator hands to the broker',
   'the proxy-side producer of the INFOMGR reply (handle_umctl_info_migration: into_strings().join(" ")) is mirrored in '
   'the harness, not driven through the executor; the coordinator-side consumer is the real MigrationStateRespChecker',
-  'C17_from_resp_partial: the full statement (vectors containing an element that is not a UTF-8 bulk string are '
-  'rejected) is false for the code as it is (finding F8, C17_F8_counterexample / C17_F8_repl_counterexample); it is '
-  'proved for the repaired filter (C17_from_resp_strict, C17_repl_from_resp_strict)',
+  'C17_from_resp_partial is the filter-independent part; the full statement (vectors containing an element that is not '
+  'a UTF-8 bulk string are rejected) holds for the code as repaired in 942fdd0 (C17_from_resp_strict / '
+  'C17_repl_from_resp_strict, generated flag fromRespStrict = true) and was false before (F8, C17_F8_counterexample)',
  ],
  'trusted': [
   'tools/extract_proto.py (words, limits, defaults, and the drop/strict shape of the from_resp element filter)',
@@ -42,7 +43,7 @@ CHECK = {
  'text': 'Proved for every well-formed cluster meta (any number of nodes, ranges, all tag kinds, peers, any config, any '
          'HashMap iteration order): parse(to_args m) = m; for any lossless codec parse(to_compressed_args m) ≃ m and both '
          'encodings decode to the same value; parse_repl_meta(encode_repl_meta m) = m; a MigrationTaskMeta survives '
-         'join(" ")/split(\' \')/from_strings and SwitchArg its command. Proved for every token list: whatever parse '
+         'join(" ")/split(\' \')/from_strings and SwitchArg its command; the descriptor reported for any stored migration entry — by the source (MIGRATING) or the destination (IMPORTING) proxy — is accepted by commit_migration and commits exactly that migration, in every state of every bounded broker run (C17_task_commit, over the broker model with C10/C01 lemmas), tag None is refused. Proved for every token list: whatever parse '
          'accepts is a well-formed value whose own encoding decodes to exactly it (no misparse), truncation inside a '
          'local or peer group, non-numeric epochs/counts, bad tags, bad range tokens and unknown section words are '
          'rejected; RangeList::compact never hits its expect()s and is idempotent. Finding F8 (from_resp / '
@@ -50,8 +51,7 @@ CHECK = {
          'filter and the full statement for the repaired one. Every run drives the real to_args / to_compressed_args / '
          'parse / from_resp / encode_repl_meta / ReplicatorMeta::from_resp / MigrationTaskMeta / SwitchArg / '
          'parse_switch_command / MigrationStateRespChecker on generated values and on all single-token deletions plus '
-         'sampled corruptions, and compares verdict and value with the model line by line.',
+         'sampled corruptions, and compares verdict and value with the model line by line; a commit leg builds a real MetaStore with pending migrations (scale-out, scale-down, failover in between), serves every proxy (real get_proxy_by_address), takes each tagged slot range through the INFOMGR string and the real coordinator parser into the real commit_migration from both sides (each migration accepted exactly once, second report MIGRATION_TASK_NOT_FOUND), with the full store compared after every step.',
  'note': 'Trusted: Lean kernel; hand transliteration (checked differentially each run); generated constants; the Codec '
-         'hypothesis; Unicode case tables (swept against Rust each run). Not covered: C17_task_commit (broker side), the '
-         'executor-side INFOMGR producer.',
+         'hypothesis; Unicode case tables (swept against Rust each run). Not covered: the executor-side INFOMGR producer (mirrored).',
 }
